@@ -1,7 +1,1034 @@
-From Coq Require Import ZArith List Bool Sorted Permutation Lia.
+(* C16 - proofs about the ovnisort model (Tools/WinsortDefs.v). *)
+From Coq Require Import ZArith List Bool Sorted Permutation Lia Arith.
 From OV Require Import Tools.WinsortDefs.
 Import ListNotations.
 Local Open Scope Z_scope.
 
-Lemma winsort_empty : forall n, winsort n [] = None.
+(* ------------------------------------------------------------------------ *)
+(* generic list facts                                                         *)
+(* ------------------------------------------------------------------------ *)
+
+Lemma firstn_len_app {A} (a b : list A) : firstn (length a) (a ++ b) = a.
+Proof. induction a; cbn; [destruct b; reflexivity | now rewrite IHa]. Qed.
+
+Lemma skipn_len_app {A} (a b : list A) : skipn (length a) (a ++ b) = b.
+Proof. induction a; cbn; auto. Qed.
+
+Lemma Forall_firstn' {A} (P : A -> Prop) n (l : list A) : Forall P l -> Forall P (firstn n l).
+Proof.
+  revert n; induction l; intros [|n] H; cbn; auto.
+  inversion H; subst; constructor; auto.
+Qed.
+
+Lemma SS_app_inv {A} (R : A -> A -> Prop) (l1 l2 : list A) :
+  StronglySorted R (l1 ++ l2) ->
+  StronglySorted R l1 /\ StronglySorted R l2 /\ (forall a b, In a l1 -> In b l2 -> R a b).
+Proof.
+  induction l1; cbn; intros H.
+  - repeat split; [constructor | assumption | intros ? ? []].
+  - inversion H; subst. destruct (IHl1 H2) as (S1 & S2 & C).
+    rewrite Forall_app in H3. destruct H3 as [F1 F2].
+    repeat split; auto.
+    + constructor; auto.
+    + intros x y [<- | Hx] Hy; [rewrite Forall_forall in F2; auto | auto].
+Qed.
+
+Lemma SS_app {A} (R : A -> A -> Prop) (l1 l2 : list A) :
+  StronglySorted R l1 -> StronglySorted R l2 -> (forall a b, In a l1 -> In b l2 -> R a b) ->
+  StronglySorted R (l1 ++ l2).
+Proof.
+  induction l1; cbn; intros S1 S2 C; auto.
+  inversion S1; subst. constructor.
+  - apply IHl1; auto; intros; apply C; auto.
+  - rewrite Forall_app; split; auto. rewrite Forall_forall; intros; apply C; auto.
+Qed.
+
+Lemma SS_rev {A} (R : A -> A -> Prop) (l : list A) :
+  StronglySorted R l -> StronglySorted (fun a b => R b a) (rev l).
+Proof.
+  induction 1; cbn; [constructor|].
+  apply SS_app; auto.
+  - repeat constructor.
+  - intros x y Hx [<- | []]. rewrite Forall_forall in H0. apply H0. now apply in_rev.
+Qed.
+
+Lemma filter_len_perm {A} (f : A -> bool) (l l' : list A) :
+  Permutation l l' -> length (filter f l) = length (filter f l').
+Proof.
+  induction 1; cbn; auto.
+  - destruct (f x); cbn; auto.
+  - destruct (f x), (f y); cbn; auto.
+  - congruence.
+Qed.
+
+Lemma filter_len_le {A} (f : A -> bool) (l : list A) : (length (filter f l) <= length l)%nat.
+Proof. induction l; cbn; auto. destruct (f a); cbn; lia. Qed.
+
+Lemma filter_all {A} (f : A -> bool) (l : list A) :
+  Forall (fun x => f x = true) l -> filter f l = l.
+Proof. induction 1; cbn; auto. rewrite H. now f_equal. Qed.
+
+Lemma filter_firstn_len {A} (f : A -> bool) j (l : list A) :
+  Forall (fun x => f x = true) (firstn j l) -> (length (firstn j l) <= length (filter f l))%nat.
+Proof.
+  intros H. rewrite <- (firstn_skipn j l) at 2. rewrite filter_app, app_length.
+  rewrite (filter_all _ _ H). lia.
+Qed.
+
+(* ------------------------------------------------------------------------ *)
+(* the stable insertion sort, for an arbitrary key                            *)
+(* ------------------------------------------------------------------------ *)
+Section Sort.
+Variable key : ev -> Z.
+Let kle (a b : ev) : Prop := key a <= key b.
+
+Lemma ins_perm a l : Permutation (a :: l) (ins_by key a l).
+Proof.
+  induction l as [|b t IH]; cbn; auto.
+  destruct (key a <=? key b); auto.
+  eapply perm_trans; [apply perm_swap|]. now constructor.
+Qed.
+
+Lemma isort_perm l : Permutation l (isort_by key l).
+Proof.
+  induction l; cbn; auto.
+  eapply perm_trans; [|apply ins_perm]. now constructor.
+Qed.
+
+Lemma ins_sorted a l : StronglySorted kle l -> StronglySorted kle (ins_by key a l).
+Proof.
+  induction 1 as [|b t St IH Fb]; cbn.
+  - repeat constructor.
+  - destruct (key a <=? key b) eqn:E.
+    + constructor; [constructor; auto|].
+      constructor; [unfold kle; lia|].
+      eapply Forall_impl; [|exact Fb]. unfold kle; intros; lia.
+    + constructor; auto.
+      eapply Permutation_Forall; [apply ins_perm|].
+      constructor; auto. unfold kle; lia.
+Qed.
+
+Lemma isort_sorted l : StronglySorted kle (isort_by key l).
+Proof. induction l; cbn; [constructor | now apply ins_sorted]. Qed.
+
+Lemma ins_low a l : Forall (kle a) l -> ins_by key a l = a :: l.
+Proof.
+  destruct l as [|b t]; cbn; auto. intros H; inversion H; subst.
+  unfold kle in *. destruct (key a <=? key b) eqn:E; auto; lia.
+Qed.
+
+Lemma isort_id l : StronglySorted kle l -> isort_by key l = l.
+Proof. induction 1; cbn; auto. rewrite IHStronglySorted. now apply ins_low. Qed.
+
+Lemma ins_comm a b X : key b < key a ->
+  ins_by key b (ins_by key a X) = ins_by key a (ins_by key b X).
+Proof.
+  intros Hba. induction X as [|x X IH]; cbn.
+  - destruct (key b <=? key a) eqn:E1, (key a <=? key b) eqn:E2; auto; lia.
+  - destruct (key a <=? key x) eqn:Eax, (key b <=? key x) eqn:Ebx; cbn;
+      rewrite ?Eax, ?Ebx.
+    + destruct (key b <=? key a) eqn:E1, (key a <=? key b) eqn:E2; auto; lia.
+    + lia.
+    + destruct (key a <=? key b) eqn:E2; [lia|]. reflexivity.
+    + now rewrite IH.
+Qed.
+
+Lemma isort_ins_app a L B :
+  isort_by key (ins_by key a L ++ B) = ins_by key a (isort_by key (L ++ B)).
+Proof.
+  induction L as [|b L IH]; cbn; auto.
+  destruct (key a <=? key b) eqn:E; cbn; auto.
+  rewrite IH. apply ins_comm. lia.
+Qed.
+
+Lemma isort_app_l A B : isort_by key (A ++ B) = isort_by key (isort_by key A ++ B).
+Proof.
+  induction A as [|a A IH]; cbn; auto.
+  now rewrite isort_ins_app, <- IH.
+Qed.
+
+Lemma isort_app_low D X :
+  StronglySorted kle D -> (forall d x, In d D -> In x X -> kle d x) ->
+  isort_by key (D ++ X) = D ++ isort_by key X.
+Proof.
+  induction 1 as [|d D SD IH Fd]; cbn; intros C; auto.
+  rewrite IH by (intros; apply C; auto).
+  apply ins_low. rewrite Forall_app; split; auto.
+  rewrite Forall_forall; intros x Hx. apply C; auto.
+  eapply Permutation_in; [apply Permutation_sym, isort_perm | exact Hx].
+Qed.
+
+Lemma isort_snoc_max l e : (forall x, In x l -> kle x e) ->
+  isort_by key (l ++ [e]) = isort_by key l ++ [e].
+Proof.
+  intros H. rewrite isort_app_l. rewrite isort_app_low; auto.
+  - apply isort_sorted.
+  - intros d x Hd [<- | []]. apply H.
+    eapply Permutation_in; [apply Permutation_sym, isort_perm | exact Hd].
+Qed.
+
+Lemma ins_filter c a l :
+  filter (fun e => key e =? c) (ins_by key a l) =
+  if key a =? c then a :: filter (fun e => key e =? c) l else filter (fun e => key e =? c) l.
+Proof.
+  induction l as [|b t IH]; cbn; auto.
+  destruct (key a <=? key b) eqn:E; cbn; auto.
+  rewrite IH. destruct (key a =? c) eqn:Ea, (key b =? c) eqn:Eb; auto. lia.
+Qed.
+
+Lemma isort_filter c l :
+  filter (fun e => key e =? c) (isort_by key l) = filter (fun e => key e =? c) l.
+Proof. induction l; cbn; auto. rewrite ins_filter, IHl. reflexivity. Qed.
+
+End Sort.
+
+(* ------------------------------------------------------------------------ *)
+(* instances: by clock (spec) and by int64 clock (cmp_ev)                     *)
+(* ------------------------------------------------------------------------ *)
+
+Definition allok (l : list ev) : Prop := Forall (fun e => clk_ok e = true) l.
+
+Lemma pow63 : 2 ^ 63 = 9223372036854775808. Proof. reflexivity. Qed.
+Lemma pow64 : 2 ^ 64 = 18446744073709551616. Proof. reflexivity. Qed.
+
+Lemma clk_ok_range e : clk_ok e = true -> 0 <= clock e < 2 ^ 63.
+Proof. unfold clk_ok. rewrite pow63. lia. Qed.
+
+Lemma skey_ok e : clk_ok e = true -> skey e = clock e.
+Proof.
+  intros H. apply clk_ok_range in H. unfold skey, to_int64.
+  destruct (clock e <? 2 ^ 63) eqn:E; auto. rewrite pow63 in *. lia.
+Qed.
+
+Lemma ins_skey a l : clk_ok a = true -> allok l -> ins_by skey a l = ins_by clock a l.
+Proof.
+  intros Ha. induction 1 as [|b t Hb Ht IH]; cbn; auto.
+  rewrite (skey_ok a Ha), (skey_ok b Hb), IH. reflexivity.
+Qed.
+
+Lemma allok_perm l l' : Permutation l l' -> allok l -> allok l'.
+Proof. intros. eapply Permutation_Forall; eauto. Qed.
+
+Lemma isort_skey l : allok l -> isort_by skey l = ssort l.
+Proof.
+  unfold ssort. induction 1 as [|a t Ha Ht IH]; cbn; auto.
+  rewrite IH. apply ins_skey; auto.
+  eapply allok_perm; [apply isort_perm | exact Ht].
+Qed.
+
+Lemma ssort_sorted l : sorted (ssort l).
+Proof. apply (isort_sorted clock). Qed.
+
+Lemma ssort_perm l : Permutation l (ssort l).
+Proof. apply isort_perm. Qed.
+
+Lemma ssort_id l : sorted l -> ssort l = l.
+Proof. apply (isort_id clock). Qed.
+
+Lemma ssort_stable l : stable l (ssort l).
+Proof. intros c. apply (isort_filter clock). Qed.
+
+Lemma ssort_in x l : In x (ssort l) <-> In x l.
+Proof.
+  split; intros H.
+  - eapply Permutation_in; [apply Permutation_sym, ssort_perm | exact H].
+  - eapply Permutation_in; [apply ssort_perm | exact H].
+Qed.
+
+Lemma ssort_snoc l e : (forall x, In x l -> clock x <= clock e) -> ssort (l ++ [e]) = ssort l ++ [e].
+Proof. apply (isort_snoc_max clock). Qed.
+
+Lemma ssort_app_l A B : ssort (A ++ B) = ssort (ssort A ++ B).
+Proof. apply (isort_app_l clock). Qed.
+
+Lemma ssort_app_low D X : sorted D -> (forall d x, In d D -> In x X -> clock d <= clock x) ->
+  ssort (D ++ X) = D ++ ssort X.
+Proof. apply (isort_app_low clock). Qed.
+
+Lemma ssort_length l : length (ssort l) = length l.
+Proof. symmetry. apply Permutation_length, ssort_perm. Qed.
+
+(* ------------------------------------------------------------------------ *)
+(* pieces of the model                                                        *)
+(* ------------------------------------------------------------------------ *)
+
+Lemma min_fold_le t : forall acc,
+  let m := fold_left (fun m e => if clock e <? m then clock e else m) t acc in
+  m <= acc /\ Forall (fun e => m <= clock e) t.
+Proof.
+  induction t as [|a t IH]; intros acc; cbn.
+  - split; [lia | constructor].
+  - destruct (IH (if clock a <? acc then clock a else acc)) as [H1 H2].
+    destruct (clock a <? acc) eqn:E; split; try lia; constructor; auto; lia.
+Qed.
+
+Lemma min_clock_le l : Forall (fun e => min_clock l <= clock e) l.
+Proof.
+  destruct l as [|a t]; cbn; [constructor|].
+  destruct (min_fold_le t (clock a)) as [H1 H2]. constructor; auto.
+Qed.
+
+Lemma min_fold_in t : forall acc,
+  let m := fold_left (fun m e => if clock e <? m then clock e else m) t acc in
+  m = acc \/ exists e, In e t /\ clock e = m.
+Proof.
+  induction t as [|a t IH]; intros acc; cbn; auto.
+  destruct (IH (if clock a <? acc then clock a else acc)) as [H | (e & He & Hm)].
+  - destruct (clock a <? acc); [right; exists a; auto | left; auto].
+  - right; exists e; auto.
+Qed.
+
+Lemma min_clock_in l : l <> [] -> exists e, In e l /\ clock e = min_clock l.
+Proof.
+  destruct l as [|a t]; [congruence|]. intros _. cbn.
+  destruct (min_fold_in t (clock a)) as [H | (e & He & Hm)].
+  - exists a; split; auto.
+  - exists e; split; auto.
+Qed.
+
+Lemma find_lower_some m l : forall i j, find_lower m l i = Some j ->
+  exists A d B, l = A ++ d :: B /\ j = (i + length A)%nat /\
+                Forall (fun e => m <= clock e) A /\ clock d < m.
+Proof.
+  induction l as [|e t IH]; cbn; intros i j H; [discriminate|].
+  destruct (clock e <? m) eqn:E.
+  - inversion H; subst. exists [], e, t. cbn. repeat split; auto; lia.
+  - destruct (IH _ _ H) as (A & d & B & -> & -> & FA & Hd).
+    exists (e :: A), d, B. cbn. repeat split; auto; try lia. constructor; auto; lia.
+Qed.
+
+Lemma find_lower_none m l : forall i, find_lower m l i = None -> Forall (fun e => m <= clock e) l.
+Proof.
+  induction l as [|e t IH]; cbn; intros i H; [constructor|].
+  destruct (clock e <? m) eqn:E; [discriminate|]. constructor; [lia | eauto].
+Qed.
+
+Lemma find_lower_all_ge m l : forall i, Forall (fun e => m <= clock e) l -> find_lower m l i = None.
+Proof.
+  induction l as [|e t IH]; cbn; intros i H; auto.
+  inversion H; subst. destruct (clock e <? m) eqn:E; [lia | auto].
+Qed.
+
+(* a list that starts with elements satisfying P, followed by one that does not *)
+Lemma split_at_first_bad (P : ev -> Prop) X : forall A d B Y,
+  Forall P X -> Forall P A -> ~ P d -> A ++ d :: B = X ++ Y ->
+  exists A', A = X ++ A'.
+Proof.
+  induction X as [|x X IH]; intros A d B Y FX FA Hd E; cbn in *.
+  - exists A; auto.
+  - inversion FX; subst. destruct A as [|a A]; cbn in E.
+    + inversion E; subst. contradiction.
+    + inversion E; subst. inversion FA; subst.
+      match goal with HE : A ++ d :: B = X ++ Y, HA : Forall P A |- _ =>
+        destruct (IH _ _ _ _ H2 HA Hd HE) as (A' & ->) end.
+      exists A'; auto.
+Qed.
+
+Lemma sorted_from_true lo l : sorted l -> Forall (fun e => lo <= clock e) l -> sorted_from lo l = true.
+Proof.
+  intros S; revert lo. induction S as [|a t St IH Fa]; cbn; intros lo F; auto.
+  inversion F; subst. destruct (clock a <? lo) eqn:E; [lia|]. apply IH. exact Fa.
+Qed.
+
+Lemma sorted_from_sound l : forall lo, sorted_from lo l = true ->
+  Forall (fun e => lo <= clock e) l /\ sorted l.
+Proof.
+  induction l as [|a t IH]; cbn; intros lo H; [split; constructor|].
+  destruct (clock a <? lo) eqn:E; [discriminate|].
+  destruct (IH _ H) as [F S]. split.
+  - constructor; [lia|]. eapply Forall_impl; [|exact F]. cbn; intros; lia.
+  - constructor; auto.
+Qed.
+
+Lemma loader_from_true lo l : sorted l -> allok l -> Forall (fun e => lo <= clock e) l -> loader_from lo l = true.
+Proof.
+  intros S; revert lo. induction S as [|a t St IH Fa]; cbn; intros lo Ok F; auto.
+  inversion F; inversion Ok; subst. rewrite (skey_ok a) by auto.
+  destruct (clock a <? lo) eqn:E; [lia|]. apply IH; auto.
+Qed.
+
+Lemma allok_nonneg l : allok l -> Forall (fun e => 0 <= clock e) l.
+Proof. intros H; eapply Forall_impl; [|exact H]. intros e He. apply clk_ok_range in He. lia. Qed.
+
+(* elements not below m form a prefix of a non-increasing list *)
+Lemma desc_prefix m R : StronglySorted (fun a b => clock b <= clock a) R ->
+  Forall (fun e => m <= clock e) (firstn (length (filter (fun e => m <=? clock e) R)) R).
+Proof.
+  induction 1 as [|a t St IH Fa]; cbn; [constructor|].
+  destruct (m <=? clock a) eqn:E; cbn.
+  - constructor; [lia | exact IH].
+  - assert (Z0 : filter (fun e => m <=? clock e) t = []).
+    { clear IH St. induction Fa as [|b t' Hb Ft IHt]; cbn; auto.
+      destruct (m <=? clock b) eqn:Eb; [lia | auto]. }
+    rewrite Z0. cbn. constructor.
+Qed.
+
+(* ------------------------------------------------------------------------ *)
+(* execute_sort_plan on a region whose look-back condition holds              *)
+(* ------------------------------------------------------------------------ *)
+
+Lemma ring_check_ssort l : allok l -> ring_check (ssort l) = true.
+Proof.
+  intros Ok. apply sorted_from_true; [apply ssort_sorted|].
+  apply allok_nonneg. eapply allok_perm; [apply ssort_perm | exact Ok].
+Qed.
+
+Section Region.
+Variables (n : nat) (before : list ev) (s : ev) (rb : list ev).
+Hypothesis Hne : rb <> [].
+Hypothesis Okb : allok before.
+Hypothesis Oks : allok (s :: rb).
+Hypothesis Fb : Forall (fun x => clock x <= clock s) before.
+
+Let D' := ssort before ++ [s].
+Let m := min_clock (rev rb).
+
+Local Lemma HD'0 : ssort (before ++ [s]) = D'.
+Proof. apply ssort_snoc. rewrite Forall_forall in Fb. auto. Qed.
+
+Local Lemma SD' : sorted D'.
+Proof. rewrite <- HD'0. apply ssort_sorted. Qed.
+
+Local Lemma Hrd : rb ++ s :: rev (ssort before) = rb ++ rev D'.
+Proof. unfold D'. rewrite rev_unit. reflexivity. Qed.
+
+Local Lemma Okrb : allok rb. Proof. inversion Oks; auto. Qed.
+Local Lemma OkD' : allok D'.
+Proof.
+  rewrite <- HD'0. eapply allok_perm; [apply ssort_perm|].
+  apply Forall_app; split; auto. inversion Oks; auto.
+Qed.
+
+Local Lemma Goal' : ssort (before ++ s :: rev rb) = ssort (D' ++ rev rb).
+Proof.
+  replace (before ++ s :: rev rb) with ((before ++ [s]) ++ rev rb)
+    by (rewrite <- app_assoc; reflexivity).
+  rewrite ssort_app_l, HD'0. reflexivity.
+Qed.
+
+Local Lemma Hm : Forall (fun e => m <= clock e) rb.
+Proof.
+  pose proof (min_clock_le (rev rb)) as H. fold m in H.
+  rewrite Forall_forall in *. intros x Hx. apply H. now apply -> in_rev.
+Qed.
+
+Local Lemma len_filter_D' :
+  length (filter (fun e => m <=? clock e) (before ++ [s])) = length (filter (fun e => m <=? clock e) (rev D')).
+Proof.
+  apply filter_len_perm. rewrite <- HD'0.
+  eapply perm_trans; [apply ssort_perm | apply Permutation_rev].
+Qed.
+
+Lemma exec_plan_ok :
+  lookback_ok n (before ++ [s]) (rev rb) = true ->
+  exec_plan n (length rb) (rb ++ s :: rev (ssort before)) = Some (rev (ssort (before ++ s :: rev rb))).
+Proof.
+  intros LB. rewrite Hrd, Goal'.
+  unfold lookback_ok in LB. fold m in LB. rewrite rev_length, len_filter_D' in LB.
+  apply Nat.leb_le in LB.
+  unfold exec_plan, exec_plan_r. rewrite firstn_len_app. fold m.
+  unfold find_destination.
+  destruct (find_lower m (firstn (n - 1) (rb ++ rev D')) 0) as [nb|] eqn:FL.
+  - apply find_lower_some in FL. destruct FL as (A & d & B & HA & -> & FA & Hd). cbn [Nat.add].
+    set (B' := B ++ skipn (n - 1) (rb ++ rev D')).
+    assert (Hrd2 : rb ++ rev D' = A ++ d :: B').
+    { rewrite <- (firstn_skipn (n - 1) (rb ++ rev D')) at 1. rewrite HA, <- app_assoc. reflexivity. }
+    destruct (split_at_first_bad (fun e => m <= clock e) rb A d B' (rev D')) as (A' & ->);
+      auto using Hm; [lia|].
+    rewrite Hrd2.
+    replace (S (length (rb ++ A'))) with (length ((rb ++ A') ++ [d])) by (rewrite !app_length; cbn; lia).
+    replace ((rb ++ A') ++ d :: B') with (((rb ++ A') ++ [d]) ++ B') by (rewrite <- !app_assoc; reflexivity).
+    rewrite firstn_len_app, skipn_len_app.
+    assert (HR : rev D' = A' ++ d :: B').
+    { rewrite <- app_assoc in Hrd2. now apply app_inv_head in Hrd2. }
+    assert (HDD : D' = rev B' ++ d :: rev A').
+    { rewrite <- (rev_involutive D'), HR, rev_app_distr. cbn. rewrite <- app_assoc. reflexivity. }
+    set (win := rev ((rb ++ A') ++ [d])).
+    assert (Hwin : win = d :: rev A' ++ rev rb).
+    { unfold win. rewrite rev_unit, rev_app_distr. reflexivity. }
+    assert (Okwin : allok win).
+    { rewrite Hwin. pose proof OkD' as O. rewrite HDD in O. apply Forall_app in O. destruct O as [_ O].
+      inversion O; subst. constructor; auto. apply Forall_app; split; auto.
+      eapply allok_perm; [apply Permutation_rev | apply Okrb]. }
+    rewrite (isort_skey win Okwin), (ring_check_ssort win Okwin).
+    f_equal.
+    assert (E : D' ++ rev rb = rev B' ++ win).
+    { rewrite HDD, Hwin, <- app_assoc. reflexivity. }
+    rewrite E. pose proof SD' as S. rewrite HDD in S. apply SS_app_inv in S. destruct S as (S1 & S2 & C).
+    rewrite ssort_app_low; auto.
+    + rewrite rev_app_distr, rev_involutive. reflexivity.
+    + intros x y Hx Hy. rewrite Hwin in Hy.
+      change (d :: rev A' ++ rev rb) with ((d :: rev A') ++ rev rb) in Hy.
+      apply in_app_or in Hy. destruct Hy as [Hy | Hy]; [apply C; auto|].
+      assert (clock x <= clock d) by (apply C; cbn; auto).
+      pose proof Hm as M. rewrite Forall_forall in M. apply in_rev in Hy. specialize (M _ Hy). lia.
+  - (* no older event in the ring: it must not be full *)
+    apply find_lower_none in FL.
+    set (ring := firstn (n - 1) (rb ++ rev D')) in *.
+    assert (Hlt : (length ring < n - 1)%nat).
+    { destruct (Nat.lt_ge_cases (length ring) (n - 1)) as [|Hge]; auto. exfalso.
+      assert (Hlen : (n - 1 <= length (rb ++ rev D'))%nat).
+      { unfold ring in Hge. rewrite firstn_length in Hge. lia. }
+      unfold ring in FL. rewrite firstn_app in FL. apply Forall_app in FL. destruct FL as [_ FL].
+      assert (FL' : Forall (fun x => (m <=? clock x) = true) (firstn (n - 1 - length rb) (rev D'))).
+      { eapply Forall_impl; [|exact FL]. cbn; intros; lia. }
+      apply filter_firstn_len in FL'. rewrite firstn_length in FL'.
+      rewrite app_length in Hlen. lia. }
+    apply Nat.ltb_lt in Hlt. rewrite Hlt. apply Nat.ltb_lt in Hlt.
+    assert (Hall : ring = rb ++ rev D').
+    { unfold ring in *. apply firstn_all2. rewrite firstn_length in Hlt. lia. }
+    rewrite Hall, firstn_all, skipn_all, app_nil_r.
+    assert (Hwin : rev (rb ++ rev D') = D' ++ rev rb) by (rewrite rev_app_distr, rev_involutive; reflexivity).
+    rewrite Hwin.
+    assert (Okwin : allok (D' ++ rev rb)).
+    { apply Forall_app; split; [apply OkD'|]. eapply allok_perm; [apply Permutation_rev | apply Okrb]. }
+    rewrite (isort_skey _ Okwin), (ring_check_ssort _ Okwin). reflexivity.
+Qed.
+
+(* ... and on a region whose look-back condition does not hold *)
+Lemma exec_plan_fails :
+  lookback_ok n (before ++ [s]) (rev rb) = false ->
+  exec_plan n (length rb) (rb ++ s :: rev (ssort before)) = None.
+Proof.
+  intros LB. rewrite Hrd.
+  unfold lookback_ok in LB. fold m in LB. rewrite rev_length, len_filter_D' in LB.
+  apply Nat.leb_gt in LB.
+  unfold exec_plan, exec_plan_r. rewrite firstn_len_app. fold m.
+  unfold find_destination.
+  set (c := length (filter (fun e => m <=? clock e) (rev D'))) in *.
+  assert (Hpre : Forall (fun e => m <= clock e) (firstn (length rb + c) (rb ++ rev D'))).
+  { rewrite firstn_app. apply Forall_app; split.
+    - apply Forall_firstn', Hm.
+    - replace (length rb + c - length rb)%nat with c by lia.
+      apply desc_prefix. apply (SS_rev _ _ SD'). }
+  assert (Hring : Forall (fun e => m <= clock e) (firstn (n - 1) (rb ++ rev D'))).
+  { replace (n - 1)%nat with (Nat.min (n - 1) (length rb + c)) by lia.
+    rewrite <- firstn_firstn. apply Forall_firstn', Hpre. }
+  rewrite (find_lower_all_ge _ _ 0%nat Hring).
+  assert (Hc : (c <= length (rev D'))%nat) by apply filter_len_le.
+  assert (Hlen : length (firstn (n - 1) (rb ++ rev D')) = (n - 1)%nat).
+  { rewrite firstn_length, app_length. lia. }
+  rewrite Hlen, Nat.ltb_irrefl. reflexivity.
+Qed.
+
+End Region.
+
+(* ------------------------------------------------------------------------ *)
+(* simulation: spec scanner state  ~  model state                             *)
+(* ------------------------------------------------------------------------ *)
+
+Definition flat (p : pstate) : list ev :=
+  p_before p ++ match p_mode p with PS => [] | PR s rb => s :: rev rb end.
+
+Definition sim (p : pstate) (w : wstate) : Prop :=
+  allok (p_before p) /\
+  Forall (fun x => clock x <= p_last p) (p_before p) /\
+  match p_mode p with
+  | PS => w_st w = WS /\ w_rd w = rev (ssort (p_before p))
+  | PR s rb =>
+      allok (s :: rb) /\ clock s = p_last p /\
+      w_rd w = rb ++ s :: rev (ssort (p_before p)) /\
+      w_st w = match rb with [] => WU | _ => WX (length rb) end
+  end.
+
+Lemma sim_init : sim pinit winit.
+Proof. repeat split; constructor. Qed.
+
+Lemma rev_ssort_snoc l e : (forall x, In x l -> clock x <= clock e) ->
+  rev (ssort (l ++ [e])) = e :: rev (ssort l).
+Proof. intros H. rewrite ssort_snoc by auto. apply rev_unit. Qed.
+
+Lemma Forall_le_trans (l : list ev) a b : a <= b ->
+  Forall (fun x => clock x <= a) l -> Forall (fun x => clock x <= b) l.
+Proof. intros H F. eapply Forall_impl; [|exact F]. cbn; intros; lia. Qed.
+
+Lemma pstep_flat n p e p' : pstep n p e = Some p' -> flat p' = flat p ++ [e].
+Proof.
+  unfold pstep, flat. destruct (negb (clk_ok e)); [discriminate|].
+  destruct p as [bef last mode]; cbn. destruct mode as [|s rb].
+  - destruct (last <=? clock e); [|discriminate].
+    destruct (starts_unsorted_region e); intros H; inversion H; subst; cbn.
+    + rewrite app_nil_r. reflexivity.
+    + rewrite !app_nil_r. reflexivity.
+  - destruct (ends_unsorted_region e).
+    + match goal with |- (if ?c then _ else _) = _ -> _ => destruct c end; [|discriminate].
+      intros H; inversion H; subst; cbn. rewrite app_nil_r, <- app_assoc. cbn.
+      reflexivity.
+    + intros H; inversion H; subst; cbn. rewrite <- !app_assoc. cbn. reflexivity.
+Qed.
+
+Lemma prun_flat n l : forall p p', prun n p l = Some p' -> flat p' = flat p ++ l.
+Proof.
+  induction l as [|e t IH]; cbn; intros p p' H.
+  - inversion H; subst. now rewrite app_nil_r.
+  - destruct (pstep n p e) as [p1|] eqn:E; [|discriminate].
+    rewrite (IH _ _ H), (pstep_flat _ _ _ _ E), <- app_assoc. reflexivity.
+Qed.
+
+Ltac sim_goal := unfold sim; cbn [p_before p_last p_mode w_st w_rd].
+
+Lemma sim_step n p w e p' : sim p w -> pstep n p e = Some p' ->
+  exists w', wstep n w e = Some w' /\ sim p' w'.
+Proof.
+  intros (Okb & Fb & M) H. unfold pstep in H.
+  destruct (clk_ok e) eqn:Oke; cbn [negb] in H; [|discriminate].
+  destruct p as [bef last mode]; cbn [p_before p_last p_mode] in *. destruct mode as [|s rb].
+  - destruct M as [Wst Wrd].
+    destruct (last <=? clock e) eqn:Ele; [|discriminate].
+    assert (Fb' : Forall (fun x => clock x <= clock e) bef) by (eapply Forall_le_trans; [|exact Fb]; lia).
+    unfold wstep. rewrite Wst.
+    destruct (starts_unsorted_region e); inversion H; clear H; subst p'.
+    + eexists; split; [reflexivity|]. sim_goal.
+      refine (conj Okb (conj Fb' (conj _ (conj eq_refl (conj _ eq_refl))))).
+      * repeat constructor; auto.
+      * rewrite Wrd. reflexivity.
+    + eexists; split; [reflexivity|]. sim_goal.
+      refine (conj _ (conj _ (conj eq_refl _))).
+      * apply Forall_app; split; auto; repeat constructor; auto.
+      * apply Forall_app; split; auto; constructor; [lia | constructor].
+      * rewrite Wrd. symmetry. apply rev_ssort_snoc. rewrite Forall_forall in Fb'. auto.
+  - destruct M as (Oks & Hs & Wrd & Wst).
+    unfold wstep. destruct (ends_unsorted_region e) eqn:Eend.
+    + match type of H with (if ?c then _ else _) = _ => destruct c eqn:Cnd end; [|discriminate].
+      inversion H; clear H; subst p'.
+      apply andb_prop in Cnd. destruct Cnd as [Cnd LB]. apply andb_prop in Cnd. destruct Cnd as [Ele Fle].
+      rewrite forallb_forall in Fle.
+      assert (Hall : forall x, In x (bef ++ s :: rev rb) -> clock x <= clock e).
+      { intros x Hx. apply in_app_or in Hx. destruct Hx as [Hx | [<- | Hx]].
+        - rewrite Forall_forall in Fb. specialize (Fb _ Hx). lia.
+        - lia.
+        - apply in_rev in Hx. specialize (Fle _ Hx). lia. }
+      assert (Hfin : allok (bef ++ s :: rev rb ++ [e])).
+      { apply Forall_app; split; auto. inversion Oks; subst. constructor; auto.
+        apply Forall_app; split; [|repeat constructor; auto].
+        eapply allok_perm; [apply Permutation_rev | auto]. }
+      assert (Hle : Forall (fun x => clock x <= clock e) (bef ++ s :: rev rb ++ [e])).
+      { replace (bef ++ s :: rev rb ++ [e]) with ((bef ++ s :: rev rb) ++ [e])
+          by (rewrite <- app_assoc; reflexivity).
+        apply Forall_app; split; [rewrite Forall_forall; auto | constructor; [lia | constructor]]. }
+      assert (Hrev : rev (ssort (bef ++ s :: rev rb ++ [e])) = e :: rev (ssort (bef ++ s :: rev rb))).
+      { replace (bef ++ s :: rev rb ++ [e]) with ((bef ++ s :: rev rb) ++ [e])
+          by (rewrite <- app_assoc; reflexivity).
+        apply rev_ssort_snoc; auto. }
+      destruct rb as [|b rb'].
+      * rewrite Wst. eexists; split; [reflexivity|]. sim_goal.
+        refine (conj Hfin (conj Hle (conj eq_refl _))).
+        rewrite Hrev, Wrd. cbn [rev app]. f_equal.
+        change (bef ++ [s]) with (bef ++ [s]).
+        rewrite rev_ssort_snoc; auto. rewrite Forall_forall in Fb. intros; rewrite Hs; auto.
+      * rewrite Wst, Wrd.
+        rewrite (exec_plan_ok n bef s (b :: rb')); auto.
+        -- eexists; split; [reflexivity|]. sim_goal.
+           refine (conj Hfin (conj Hle (conj eq_refl _))). rewrite Hrev. reflexivity.
+        -- rewrite Hs; auto.
+    + inversion H; clear H; subst p'. destruct rb as [|b rb'].
+      * rewrite Wst. eexists; split; [reflexivity|]. sim_goal.
+        refine (conj Okb (conj Fb (conj _ (conj Hs (conj _ eq_refl))))).
+        -- inversion Oks; subst. repeat constructor; auto.
+        -- rewrite Wrd. reflexivity.
+      * rewrite Wst. eexists; split; [reflexivity|]. sim_goal.
+        refine (conj Okb (conj Fb (conj _ (conj Hs (conj _ eq_refl))))).
+        -- inversion Oks; subst. constructor; auto.
+        -- rewrite Wrd. reflexivity.
+Qed.
+
+Lemma sim_run n l : forall p w p', sim p w -> prun n p l = Some p' ->
+  exists w', wrun n w l = Some w' /\ sim p' w'.
+Proof.
+  induction l as [|e t IH]; cbn; intros p w p' S H.
+  - inversion H; subst. eauto.
+  - destruct (pstep n p e) as [p1|] eqn:E; [|discriminate].
+    destruct (sim_step _ _ _ _ _ S E) as (w1 & -> & S1). eauto.
+Qed.
+
+Lemma wrun_app n a : forall w b,
+  wrun n w (a ++ b) = match wrun n w a with None => None | Some w' => wrun n w' b end.
+Proof.
+  induction a as [|e t IH]; cbn; intros w b; auto.
+  destruct (wstep n w e); auto.
+Qed.
+
+(* ------------------------------------------------------------------------ *)
+(* main result: under the precondition the tool computes THE stable sort      *)
+(* ------------------------------------------------------------------------ *)
+
+Theorem winsort_is_ssort n evs : pre n evs -> evs <> [] -> winsort n evs = Some (ssort evs).
+Proof.
+  unfold pre, preb. intros P Ne.
+  destruct (prun n pinit evs) as [p|] eqn:R; [|discriminate].
+  destruct (p_mode p) eqn:Md; [|discriminate].
+  destruct (sim_run _ _ _ _ _ sim_init R) as (w & Hw & (_ & _ & M)).
+  rewrite Md in M. destruct M as [_ Wrd].
+  pose proof (prun_flat _ _ _ _ R) as Fl. unfold flat in Fl. rewrite Md in Fl. cbn in Fl.
+  rewrite app_nil_r in Fl.
+  unfold winsort. destruct evs as [|e t]; [congruence|].
+  rewrite Hw, Wrd, rev_involutive, Fl. reflexivity.
+Qed.
+
+Lemma pre_allok n evs : pre n evs -> allok evs.
+Proof.
+  unfold pre, preb. intros P.
+  destruct (prun n pinit evs) as [p|] eqn:R; [|discriminate].
+  destruct (p_mode p) eqn:Md; [|discriminate].
+  destruct (sim_run _ _ _ _ _ sim_init R) as (w & Hw & (Ok & _ & M)).
+  pose proof (prun_flat _ _ _ _ R) as Fl. unfold flat in Fl. rewrite Md in Fl. cbn in Fl.
+  rewrite app_nil_r in Fl. now rewrite <- Fl.
+Qed.
+
+(* ------------------------------------------------------------------------ *)
+(* postconditions, stated without reference to [ssort]                        *)
+(* ------------------------------------------------------------------------ *)
+
+Lemma total_size_perm l l' : Permutation l l' -> total_size l = total_size l'.
+Proof. unfold total_size. induction 1; cbn in *; lia. Qed.
+
+Lemma ssort_prefix_untouched l : prefix_untouched l (ssort l).
+Proof.
+  intros A B -> SA C. exists (ssort B). split.
+  - apply ssort_app_low; auto.
+  - apply ssort_length.
+Qed.
+
+Lemma check_mode_sorted l : l <> [] -> sorted l -> check_mode l = true.
+Proof.
+  destruct l as [|a t]; [congruence|]. intros _ S. inversion S; subst. cbn.
+  apply sorted_from_true; auto.
+Qed.
+
+Lemma check_mode_sound l : check_mode l = true -> l <> [] /\ sorted l.
+Proof.
+  destruct l as [|a t]; cbn; [discriminate|]. intros H.
+  destruct (sorted_from_sound _ _ H) as [F S]. split; [discriminate|]. constructor; auto.
+Qed.
+
+Lemma loader_accepts_sorted l : sorted l -> allok l -> loader_accepts l = true.
+Proof. intros S Ok. apply loader_from_true; auto. now apply allok_nonneg. Qed.
+
+Theorem winsort_succeeds n evs : pre n evs -> evs <> [] -> exists out, winsort n evs = Some out.
+Proof. intros P Ne. eexists. apply winsort_is_ssort; auto. Qed.
+
+Theorem winsort_post n evs out : pre n evs -> evs <> [] -> winsort n evs = Some out ->
+  Permutation evs out /\ sorted out /\ stable evs out /\ prefix_untouched evs out /\
+  length out = length evs /\ total_size out = total_size evs /\
+  check_mode out = true /\ loader_accepts out = true.
+Proof.
+  intros P Ne H. rewrite (winsort_is_ssort _ _ P Ne) in H. inversion H; subst out; clear H.
+  repeat split.
+  - apply ssort_perm.
+  - apply ssort_sorted.
+  - apply ssort_stable.
+  - apply ssort_prefix_untouched.
+  - apply ssort_length.
+  - symmetry. apply total_size_perm, ssort_perm.
+  - apply check_mode_sorted; [|apply ssort_sorted].
+    intros E. apply Ne. apply Permutation_nil. rewrite <- E. apply Permutation_sym, ssort_perm.
+  - apply loader_accepts_sorted; [apply ssort_sorted|].
+    eapply allok_perm; [apply ssort_perm | eapply pre_allok; eauto].
+Qed.
+
+(* two outputs satisfying the postconditions are equal: the specification
+   determines the output (so the model output is THE answer, not one of many) *)
+Lemma sorted_stable_unique l1 : forall l2, sorted l1 -> sorted l2 ->
+  (forall c, filter (fun e => clock e =? c) l1 = filter (fun e => clock e =? c) l2) -> l1 = l2.
+Proof.
+  induction l1 as [|a l1 IH]; intros l2 S1 S2 F.
+  - destruct l2 as [|b l2]; auto. specialize (F (clock b)). cbn in F. rewrite Z.eqb_refl in F. discriminate.
+  - destruct l2 as [|b l2].
+    { specialize (F (clock a)). cbn in F. rewrite Z.eqb_refl in F. discriminate. }
+    inversion S1 as [|? ? S1' Fa]; inversion S2 as [|? ? S2' Fb]; subst.
+    assert (Hab : a = b).
+    { destruct (Z.eq_dec (clock a) (clock b)) as [E|NE].
+      - specialize (F (clock a)). cbn in F. rewrite Z.eqb_refl in F. rewrite <- E, Z.eqb_refl in F. congruence.
+      - exfalso.
+        assert (Ina : In a (b :: l2)).
+        { assert (I : In a (filter (fun e => clock e =? clock a) (a :: l1))).
+          { apply filter_In; split; [left; auto | apply Z.eqb_refl]. }
+          rewrite (F (clock a)) in I. apply filter_In in I. tauto. }
+        assert (Inb : In b (a :: l1)).
+        { assert (I : In b (filter (fun e => clock e =? clock b) (b :: l2))).
+          { apply filter_In; split; [left; auto | apply Z.eqb_refl]. }
+          rewrite <- (F (clock b)) in I. apply filter_In in I. tauto. }
+        destruct Ina as [->|Ina]; [congruence|]. destruct Inb as [->|Inb]; [congruence|].
+        rewrite Forall_forall in Fa, Fb. specialize (Fa _ Inb). specialize (Fb _ Ina).
+        unfold cle in *. lia. }
+    subst b. f_equal. apply IH; auto.
+    intros c. specialize (F c). cbn in F. destruct (clock a =? c); congruence.
+Qed.
+
+Theorem post_determines_output evs o1 o2 :
+  sorted o1 -> stable evs o1 -> sorted o2 -> stable evs o2 -> o1 = o2.
+Proof.
+  intros S1 T1 S2 T2. apply sorted_stable_unique; auto.
+  intros c. rewrite (T1 c), (T2 c). reflexivity.
+Qed.
+
+(* ------------------------------------------------------------------------ *)
+(* running the tool on an already sorted stream never changes it              *)
+(* ------------------------------------------------------------------------ *)
+
+Lemma exec_plan_sorted_id n k rd rd' :
+  sorted (rev rd) -> allok rd -> exec_plan n k rd = Some rd' -> rd' = rd.
+Proof.
+  intros S Ok. unfold exec_plan, exec_plan_r.
+  destruct (find_destination n rd (min_clock (rev (firstn k rd)))) as [w|]; [|discriminate].
+  destruct (ring_check _); [|discriminate]. intros H; inversion H; subst; clear H.
+  assert (Sw : sorted (rev (firstn w rd))).
+  { rewrite <- (firstn_skipn w rd), rev_app_distr in S. apply SS_app_inv in S. tauto. }
+  assert (Okw : allok (rev (firstn w rd))).
+  { eapply allok_perm; [apply Permutation_rev|]. apply Forall_firstn', Ok. }
+  rewrite (isort_skey _ Okw), (ssort_id _ Sw), rev_involutive. apply firstn_skipn.
+Qed.
+
+Lemma wstep_sorted_id n w e w' :
+  sorted (rev (w_rd w)) -> allok (w_rd w) -> wstep n w e = Some w' -> w_rd w' = e :: w_rd w.
+Proof.
+  intros S Ok. unfold wstep. destruct (w_st w).
+  - destruct (starts_unsorted_region e); intros H; inversion H; reflexivity.
+  - destruct (ends_unsorted_region e); intros H; inversion H; reflexivity.
+  - destruct (ends_unsorted_region e).
+    + destruct (exec_plan n nbody (w_rd w)) as [rd'|] eqn:E; [|discriminate].
+      intros H; inversion H; subst; cbn. f_equal. eapply exec_plan_sorted_id; eauto.
+    + intros H; inversion H; reflexivity.
+Qed.
+
+Lemma wrun_sorted_id n l : forall w w',
+  sorted (rev (w_rd w) ++ l) -> allok (rev (w_rd w) ++ l) ->
+  wrun n w l = Some w' -> rev (w_rd w') = rev (w_rd w) ++ l.
+Proof.
+  induction l as [|e t IH]; cbn; intros w w' S Ok H.
+  - inversion H; subst. now rewrite app_nil_r.
+  - destruct (wstep n w e) as [w1|] eqn:E; [|discriminate].
+    assert (S0 : sorted (rev (w_rd w))) by (apply SS_app_inv in S; tauto).
+    assert (Ok0 : allok (w_rd w)).
+    { apply Forall_app in Ok. destruct Ok as [Ok _].
+      eapply allok_perm; [apply Permutation_sym, Permutation_rev | exact Ok]. }
+    pose proof (wstep_sorted_id _ _ _ _ S0 Ok0 E) as R1.
+    assert (Eq : rev (w_rd w1) ++ t = rev (w_rd w) ++ e :: t).
+    { rewrite R1. cbn. rewrite <- app_assoc. reflexivity. }
+    rewrite <- Eq. apply IH; auto; rewrite Eq; auto.
+Qed.
+
+Theorem winsort_sorted_input n l out : sorted l -> allok l -> winsort n l = Some out -> out = l.
+Proof.
+  intros S Ok. unfold winsort. destruct l as [|e t]; [discriminate|].
+  destruct (wrun n winit (e :: t)) as [w|] eqn:R; [|discriminate].
+  intros H; inversion H; subst; clear H.
+  apply (wrun_sorted_id n (e :: t) winit w); auto.
+Qed.
+
+(* second run: never changes a byte; succeeds whenever the output still meets the precondition *)
+Theorem winsort_idempotent_partial n evs out : pre n evs -> evs <> [] -> winsort n evs = Some out ->
+  (winsort n out = Some out \/ winsort n out = None) /\
+  (pre n out -> winsort n out = Some out).
+Proof.
+  intros P Ne H.
+  destruct (winsort_post _ _ _ P Ne H) as (Pm & S & _).
+  assert (Ok : allok out) by (eapply allok_perm; [exact Pm | eapply pre_allok; eauto]).
+  split.
+  - destruct (winsort n out) as [o2|] eqn:E; auto. left. f_equal.
+    eapply winsort_sorted_input; eauto.
+  - intros P2. rewrite (winsort_is_ssort _ _ P2).
+    + now rewrite (ssort_id _ S).
+    + intros ->. apply Ne. apply Permutation_nil. now apply Permutation_sym.
+Qed.
+
+(* ------------------------------------------------------------------------ *)
+(* failure side                                                               *)
+(* ------------------------------------------------------------------------ *)
+
+(* the stream is fine up to and including the body of a region (scanner state
+   PR s rb, rb <> []), the region is then closed, and its proper position is
+   outside the look-back window: the tool fails *)
+Theorem winsort_fails_beyond_lookback n l1 t rest p s rb :
+  prun n pinit l1 = Some p -> p_mode p = PR s rb -> rb <> [] ->
+  ends_unsorted_region t = true ->
+  lookback_ok n (p_before p ++ [s]) (rev rb) = false ->
+  winsort n (l1 ++ t :: rest) = None.
+Proof.
+  intros R Md Ne Et LB.
+  destruct (sim_run _ _ _ _ _ sim_init R) as (w & Hw & (Okb & Fb & M)).
+  rewrite Md in M. destruct M as (Oks & Hs & Wrd & Wst).
+  unfold winsort. destruct (l1 ++ t :: rest) eqn:El; [destruct l1; discriminate|]. rewrite <- El.
+  rewrite wrun_app, Hw. cbn [wrun]. unfold wstep.
+  destruct rb as [|b rb']; [congruence|]. rewrite Wst, Et, Wrd.
+  rewrite (exec_plan_fails n (p_before p) s (b :: rb')); auto.
+  rewrite Hs; auto.
+Qed.
+
+Theorem winsort_empty_stream n : winsort n [] = None /\ check_mode [] = false.
+Proof. split; reflexivity. Qed.
+
+Theorem pre_empty n : pre n [].
 Proof. reflexivity. Qed.
+
+(* the model's failing run and its file content agree with [winsort] *)
+Lemma wrun_file_spec n l : forall w,
+  match wrun n w l with
+  | Some w' => wrun_file n w l = (true, rev (w_rd w'))
+  | None => fst (wrun_file n w l) = false
+  end.
+Proof.
+  induction l as [|e t IH]; cbn; intros w; auto.
+  destruct (wstep n w e) as [w1|]; cbn; auto. apply IH.
+Qed.
+
+Theorem winsort_file_spec n evs :
+  match winsort n evs with
+  | Some out => winsort_file n evs = (true, out)
+  | None => fst (winsort_file n evs) = false
+  end.
+Proof.
+  destruct evs as [|e t]; [reflexivity|]. unfold winsort, winsort_file.
+  pose proof (wrun_file_spec n (e :: t) winit) as H.
+  destruct (wrun n winit (e :: t)); auto.
+Qed.
+
+(* ------------------------------------------------------------------------ *)
+(* unconditional safety: whatever the input, a successful run only permutes   *)
+(* events, and only inside the window it decided to sort                      *)
+(* ------------------------------------------------------------------------ *)
+
+Lemma exec_plan_perm n k rd rd' : exec_plan n k rd = Some rd' ->
+  Permutation rd rd' /\ exists w, skipn w rd' = skipn w rd /\ length rd' = length rd.
+Proof.
+  unfold exec_plan, exec_plan_r.
+  destruct (find_destination n rd (min_clock (rev (firstn k rd)))) as [w|]; [|discriminate].
+  destruct (ring_check _); [|discriminate]. intros H; inversion H; subst; clear H.
+  set (W := isort_by skey (rev (firstn w rd))).
+  assert (PW : Permutation (firstn w rd) (rev W)).
+  { eapply perm_trans; [apply Permutation_rev|]. eapply perm_trans; [apply (isort_perm skey)|].
+    apply Permutation_rev. }
+  split.
+  - rewrite <- (firstn_skipn w rd) at 1. apply Permutation_app_tail. exact PW.
+  - assert (LW : length (rev W) = length (firstn w rd)) by (symmetry; apply Permutation_length, PW).
+    destruct (Nat.le_gt_cases w (length rd)) as [Hle|Hgt].
+    + exists w. rewrite firstn_length_le in LW by auto. split.
+      * rewrite <- LW at 1. apply skipn_len_app.
+      * rewrite app_length, LW, skipn_length. lia.
+    + exists (length rd).
+      assert (Hw : (length rd <= w)%nat) by lia.
+      rewrite (firstn_all2 rd Hw) in LW. rewrite (skipn_all2 rd Hw).
+      rewrite app_nil_r, skipn_all. split.
+      * rewrite <- LW. apply skipn_all.
+      * exact LW.
+Qed.
+
+Lemma wstep_perm n w e w' : wstep n w e = Some w' -> Permutation (e :: w_rd w) (w_rd w').
+Proof.
+  unfold wstep. destruct (w_st w).
+  - destruct (starts_unsorted_region e); intros H; inversion H; auto.
+  - destruct (ends_unsorted_region e); intros H; inversion H; auto.
+  - destruct (ends_unsorted_region e).
+    + destruct (exec_plan n nbody (w_rd w)) as [rd'|] eqn:E; [|discriminate].
+      intros H; inversion H; subst; cbn. constructor. apply (exec_plan_perm _ _ _ _ E).
+    + intros H; inversion H; auto.
+Qed.
+
+Lemma wrun_perm n l : forall w w', wrun n w l = Some w' -> Permutation (rev (w_rd w) ++ l) (rev (w_rd w')).
+Proof.
+  induction l as [|e t IH]; cbn; intros w w' H.
+  - inversion H; subst. now rewrite app_nil_r.
+  - destruct (wstep n w e) as [w1|] eqn:E; [|discriminate].
+    eapply perm_trans; [|apply (IH _ _ H)].
+    replace (rev (w_rd w) ++ e :: t) with ((rev (w_rd w) ++ [e]) ++ t) by (rewrite <- app_assoc; reflexivity).
+    apply Permutation_app_tail.
+    eapply perm_trans; [|apply Permutation_rev].
+    eapply perm_trans; [|apply (wstep_perm _ _ _ _ E)].
+    eapply perm_trans; [apply Permutation_app_comm|]. cbn. constructor.
+    apply Permutation_sym, Permutation_rev.
+Qed.
+
+Theorem winsort_permutation_always n evs out : winsort n evs = Some out ->
+  Permutation evs out /\ total_size out = total_size evs.
+Proof.
+  unfold winsort. destruct evs as [|e t]; [discriminate|].
+  destruct (wrun n winit (e :: t)) as [w|] eqn:R; [|discriminate].
+  intros H; inversion H; subst; clear H.
+  pose proof (wrun_perm _ _ _ _ R) as P. cbn [winit w_rd rev app] in P.
+  split; auto. symmetry. now apply total_size_perm.
+Qed.
+
+(* a stream without OU[ markers is left exactly as it is, sorted or not *)
+Lemma wrun_no_region n l : forall rd,
+  Forall (fun e => starts_unsorted_region e = false) l ->
+  wrun n (mkw WS rd) l = Some (mkw WS (rev l ++ rd)).
+Proof.
+  induction l as [|e t IH]; cbn; intros rd F; auto.
+  inversion F; subst. unfold wstep; cbn. rewrite H1. rewrite IH by auto.
+  rewrite <- app_assoc. reflexivity.
+Qed.
+
+Theorem winsort_no_region n evs : evs <> [] ->
+  Forall (fun e => starts_unsorted_region e = false) evs -> winsort n evs = Some evs.
+Proof.
+  intros Ne F. unfold winsort. destruct evs as [|e t]; [congruence|].
+  unfold winit. rewrite wrun_no_region by auto. cbn [w_rd]. rewrite app_nil_r, rev_involutive. reflexivity.
+Qed.
+
+Theorem min_clock_spec l : l <> [] ->
+  Forall (fun e => min_clock l <= clock e) l /\ exists e, In e l /\ clock e = min_clock l.
+Proof. intros H. split; [apply min_clock_le | now apply min_clock_in]. Qed.
+
+Theorem check_mode_iff l : check_mode l = true <-> (l <> [] /\ sorted l).
+Proof. split; [apply check_mode_sound | intros [? ?]; now apply check_mode_sorted]. Qed.
+
+(* ------------------------------------------------------------------------ *)
+(* refutations (findings) and non-vacuity                                     *)
+(* ------------------------------------------------------------------------ *)
+
+Definition Pl (c i : Z) : ev := mkev c 79 85 97 i 12.        (* OUa, no payload *)
+Definition Jb (c i : Z) : ev := mkev c 79 85 106 i 70016.    (* OUj, jumbo of 70000 bytes *)
+Definition Rs (c i : Z) : ev := mkev c 79 85 91 i 12.        (* OU[ *)
+Definition Re (c i : Z) : ev := mkev c 79 85 93 i 12.        (* OU] *)
+Definition Hx (c i : Z) : ev := mkev c 79 72 120 i 24.       (* OHx *)
+Definition He (c i : Z) : ev := mkev c 79 72 101 i 12.       (* OHe *)
+
+(* FULL STATEMENT (property text: "sorting again changes nothing"):
+     forall n evs out, pre n evs -> winsort n evs = Some out -> winsort n out = Some out.
+   It is FALSE for the faithful model (and for the real tool, replayed by the check):
+   the first run succeeds with -n 5, the second run on its own sorted output fails. *)
+Definition idem_witness : list ev :=
+  [Pl 5 0; Rs 5 1; Pl 5 2; Re 10 3; Rs 15 4; Pl 6 5; Re 15 6].
+Definition idem_sorted : list ev :=
+  [Pl 5 0; Rs 5 1; Pl 5 2; Pl 6 5; Re 10 3; Rs 15 4; Re 15 6].
+
+Theorem winsort_idempotent_refuted :
+  exists n evs out, pre n evs /\ evs <> [] /\ winsort n evs = Some out /\
+                    check_mode out = true /\ sorted out /\ winsort n out = None.
+Proof.
+  exists 5%nat, idem_witness, idem_sorted.
+  split; [vm_compute; reflexivity|]. split; [discriminate|].
+  split; [vm_compute; reflexivity|]. split; [vm_compute; reflexivity|].
+  split; [|vm_compute; reflexivity].
+  apply (proj2 (check_mode_sound idem_sorted eq_refl)).
+Qed.
+
+(* FULL STATEMENT: forall n evs, pre n evs -> exists out, winsort n evs = Some out.
+   FALSE for the stream without events (nothing is out of order, yet both modes fail). *)
+Theorem winsort_succeeds_refuted_empty :
+  exists n evs, pre n evs /\ winsort n evs = None /\ check_mode evs = false.
+Proof. exists 5%nat, []. repeat split. Qed.
+
+(* non-vacuity: three regions (one empty, one internally unordered with equal
+   clocks and a jumbo event, one reaching the start of the stream through equal
+   clocks), look-back exactly sufficient (n = 18, fails with n = 17) *)
+Definition ex1 : list ev :=
+  [Hx 10 0; Pl 10 1; Pl 12 2; Pl 12 3; Rs 14 4; Re 14 5;
+   Pl 15 6; Rs 16 7; Pl 13 8; Jb 12 9; Pl 13 10; Pl 12 11; Re 16 12;
+   Pl 17 13; Rs 17 14; Pl 10 15; Re 18 16; He 20 17].
+Definition ex1_out : list ev :=
+  [Hx 10 0; Pl 10 1; Pl 10 15; Pl 12 2; Pl 12 3; Jb 12 9; Pl 12 11; Pl 13 8; Pl 13 10;
+   Rs 14 4; Re 14 5; Pl 15 6; Rs 16 7; Re 16 12; Pl 17 13; Rs 17 14; Re 18 16; He 20 17].
+
+Example ex1_pre : pre 18 ex1.
+Proof. vm_compute. reflexivity. Qed.
+Example ex1_sorts : winsort 18 ex1 = Some ex1_out.
+Proof. vm_compute. reflexivity. Qed.
+Example ex1_changes : ex1_out <> ex1.
+Proof. discriminate. Qed.
+Example ex1_size : total_size ex1_out = 70232 /\ total_size ex1 = 70232.
+Proof. split; vm_compute; reflexivity. Qed.
+Example ex1_too_small : preb 17 ex1 = false /\ winsort 17 ex1 = None.
+Proof. split; vm_compute; reflexivity. Qed.
+Example ex1_again : winsort 18 ex1_out = Some ex1_out /\ check_mode ex1_out = true.
+Proof. split; vm_compute; reflexivity. Qed.
